@@ -172,6 +172,12 @@ const BAD_TYPES: [&str; 8] = ["", " ", "a", " a ", "\t\n", "x ", "\u{b}x", "\u{2
 
 impl TxGen<'_, '_> {
     fn key(&mut self) -> Vec<u8> {
+        // (hostile-key profile) rarely: a key just beyond 64 KiB, the largest length a two-byte field holds
+        if self.p.hostile_keys && self.g.chance(1, 120) {
+            let mut k = b"\x00\x04bank\x00\x08balances".to_vec();
+            k.resize(65536 + self.g.below(3), 0x5a);
+            return k;
+        }
         if self.p.hostile_keys && !self.hostile.is_empty() && self.g.chance(1, 2) {
             self.g.pick_ref(&self.hostile).clone()
         } else {
@@ -624,6 +630,7 @@ pub fn gen_history(g: &mut Gen, p: &Profile, contracts_hint: &[&str]) -> History
     // scenario template (query-heavy profile): a batch whose first message changes the registry entry of
     // the first contract and whose second message (not a wasm one) fails; then queries about that contract
     let failed_batch = !self_admin && p.query_tx_w >= 5 && g.chance(1, 6);
+    let unbond_pair = staking && g.chance(1, 4);
     for t in 0..(ninit + ntx) {
         if failed_batch && t == ninit {
             let mut tg = TxGen { staking, g, p, nodes: vec![], qnodes: vec![], budget: p.max_nodes, uniq: 0, txno: 201, wcount: 0, hostile: hostile.clone() };
@@ -643,6 +650,21 @@ pub fn gen_history(g: &mut Gen, p: &Profile, contracts_hint: &[&str]) -> History
             let qn = tg.qnode(0);
             let TxGen { nodes, qnodes, .. } = tg;
             txs.push(Tx { kind: TxKind::Queries(vec![AppQuery::Q(QSpec::ContractInfo(CRef(0))), AppQuery::ContractData(CRef(0)), AppQuery::Q(QSpec::Smart(CRef(0), qn))]), nodes, qnodes });
+        }
+        if unbond_pair && t == ninit {
+            // scenario template: several unbondings that mature at the same instant (same block, different
+            // delegators and validators), so the stored queue holds entries that tie on the completion time
+            for u in 0..2u8 {
+                let one = |v: u8, n: u128| (v, CoinSpec { denom: 1, amt: Amt::Exact(n) });
+                let (d0, d1, u0, u1) = (one(0, 3), one(1, 2), one(0, 1), one(1, 1));
+                let msgs = vec![
+                    Msg::Delegate { v: d0.0, amt: d0.1 },
+                    Msg::Delegate { v: d1.0, amt: d1.1 },
+                    Msg::Undelegate { v: u0.0, amt: u0.1 },
+                    Msg::Undelegate { v: u1.0, amt: u1.1 },
+                ];
+                txs.push(Tx { kind: TxKind::Multi { sender: ARef::User(u), msgs }, nodes: vec![], qnodes: vec![] });
+            }
         }
         if self_admin && t == ninit {
             txs.push(Tx { kind: TxKind::Exec { sender: ARef::User(0), msg: Msg::UpdateAdmin { c: CRef(0), admin: ARef::C(CRef(0)) }, via: Via::Execute }, nodes: vec![], qnodes: vec![] });
@@ -711,7 +733,11 @@ pub fn gen_history(g: &mut Gen, p: &Profile, contracts_hint: &[&str]) -> History
                 3 => {
                     let to = tg.aref();
                     let n = tg.g.weighted(&[1, 6, 2]);
-                    let coins = (0..n).map(|_| CoinSpec { denom: tg.g.below(3) as u8, amt: Amt::Exact(tg.g.weighted(&[1, 8]) as u128 * (1 + tg.g.below(50) as u128)) }).collect();
+                    let mut coins: Vec<CoinSpec> = (0..n).map(|_| CoinSpec { denom: tg.g.below(3) as u8, amt: Amt::Exact(tg.g.weighted(&[1, 8]) as u128 * (1 + tg.g.below(50) as u128)) }).collect();
+                    // sometimes every denomination at once, listed in descending order
+                    if tg.g.chance(1, 5) {
+                        coins = (0..DENOMS.len()).rev().map(|d| CoinSpec { denom: d as u8, amt: Amt::Exact(1 + d as u128) }).collect();
+                    }
                     TxKind::BankMint { to, coins }
                 }
                 4 => {
